@@ -18,32 +18,38 @@
 EXTENDS Integers, Sequences, FiniteSets, TLC, Json
 CONSTANTS Years, Cols0, Data0, Forms, MaxLen,
           NewPops          \* populations that can be added to (and removed again from) the databook
-VARIABLES cols, data, pops, hist, obs
-vars == <<cols, data, pops, hist, obs>>
-Init == cols = Cols0 /\ data = Data0 /\ pops = {} /\ hist = <<>> /\ obs = ""
+VARIABLES cols, data, pops, sigma, hist, obs
+vars == <<cols, data, pops, sigma, hist, obs>>
+Init == cols = Cols0 /\ data = Data0 /\ pops = {} /\ sigma = "none" /\ hist = <<>> /\ obs = ""
 Record(op, arg, form) == /\ hist' = Append(hist, <<op, arg, form>>)
-                         /\ obs' = ToJson([hist |-> hist', content |-> [cols |-> cols', data |-> data', pops |-> pops']])
+                         /\ obs' = ToJson([hist |-> hist', content |-> [cols |-> cols', data |-> data', pops |-> pops', sigma |-> sigma']])
 \* replace the year columns (any set that keeps every value representable), passing them in one of the documented forms
 ChangeTvec(c, f) == /\ c # cols /\ data \subseteq c
-                    /\ cols' = c /\ UNCHANGED <<data, pops>> /\ Record("change_tvec", c, f)
+                    /\ cols' = c /\ UNCHANGED <<data, pops, sigma>> /\ Record("change_tvec", c, f)
 \* TimeSeries.insert / remove on the tracked series
 SetValue(y) == /\ y \in cols \ data
-               /\ data' = data \cup {y} /\ UNCHANGED <<cols, pops>> /\ Record("set_value", {y}, "")
+               /\ data' = data \cup {y} /\ UNCHANGED <<cols, pops, sigma>> /\ Record("set_value", {y}, "")
 RemoveValue(y) == /\ y \in data
-                  /\ data' = data \ {y} /\ UNCHANGED <<cols, pops>> /\ Record("remove_value", {y}, "")
+                  /\ data' = data \ {y} /\ UNCHANGED <<cols, pops, sigma>> /\ Record("remove_value", {y}, "")
 \* write the databook, read it back: the identity
 RoundTrip == /\ (IF hist = <<>> THEN TRUE ELSE hist[Len(hist)][1] # "roundtrip")
-             /\ UNCHANGED <<cols, data, pops>> /\ Record("roundtrip", {}, "")
+             /\ UNCHANGED <<cols, data, pops, sigma>> /\ Record("roundtrip", {}, "")
+\* the uncertainty of the tracked series: absent, explicitly zero, or positive - three different visible contents (the table was read
+\* from a sheet without an Uncertainty column, so whether the column is written is decided from the series at export time)
+Sigmas == {"none", "zero", "pos"}
+SetSigma(v) == /\ v # sigma
+               /\ sigma' = v /\ UNCHANGED <<cols, data, pops>> /\ Record("set_sigma", {v}, "")
 \* ProjectData.add_pop / remove_pop: every table gains / loses the population, and so do both ends of every transfer of its type - each
 \* population is listed once at either end (the harness compares the lists, not only the sets)
 AddPop(q) == /\ q \notin pops
-             /\ pops' = pops \cup {q} /\ UNCHANGED <<cols, data>> /\ Record("add_pop", {q}, "")
+             /\ pops' = pops \cup {q} /\ UNCHANGED <<cols, data, sigma>> /\ Record("add_pop", {q}, "")
 RemovePop(q) == /\ q \in pops
-                /\ pops' = pops \ {q} /\ UNCHANGED <<cols, data>> /\ Record("remove_pop", {q}, "")
+                /\ pops' = pops \ {q} /\ UNCHANGED <<cols, data, sigma>> /\ Record("remove_pop", {q}, "")
 Next == /\ Len(hist) < MaxLen
         /\ \/ \E c \in SUBSET Years, f \in Forms : ChangeTvec(c, f)
            \/ \E y \in Years : SetValue(y) \/ RemoveValue(y)
            \/ \E q \in NewPops : AddPop(q) \/ RemovePop(q)
+           \/ \E v \in Sigmas : SetSigma(v)
            \/ RoundTrip
 Spec == Init /\ [][Next]_vars
 Representable == data \subseteq cols
